@@ -436,7 +436,11 @@ class BADS:
         LB_eff[np.isinf(lower_bounds)] = lower_bounds[np.isinf(lower_bounds)]
         UB_eff[np.isinf(upper_bounds)] = upper_bounds[np.isinf(upper_bounds)]
 
-        if np.any(LB_eff >= UB_eff):
+        if (
+            np.any(LB_eff >= UB_eff)
+            or np.any(np.isfinite(lower_bounds) & (LB_eff <= lower_bounds))
+            or np.any(np.isfinite(upper_bounds) & (UB_eff >= upper_bounds))
+        ):
             raise ValueError(
                 """bads:StrictBoundsTooClose: Hard bounds lower_bounds and upper_bounds
                 are numerically too close. Make them more separate."""
